@@ -78,7 +78,7 @@ CHECKS = {
  "C09": dict(
     engine="cbmc-c", category="model_checking", design_ref="DESIGN.md §5b C09",
     technique="CBMC on erasure_code/ec_base.c: gf_invert_matrix over ALL matrices with entries in a subfield (cofactor determinant + product oracle), generator formulas at symbolic (i,j), recovery with a symbolic erasure pattern through the real inversion",
-    text="Inversion: for every n x n matrix over GF(16) (n=2), GF(4) (n=3), GF(2) (n<=4): ret in {0,-1}, ret==0 iff det != 0, A*out = out*A = I. Generators: identity top block, cauchy[i][j]=inv(i^j), rs[i][j]=(2^(i-k))^j for symbolic (i,j) and (m,k) up to (256,10)/(32,16). "
+    text="Inversion: for every n x n matrix over GF(16) (n=2), GF(4) (n=2; n=3 thorough), GF(2) (n<=3; n<=5 thorough): ret in {0,-1}, ret==0 iff det != 0, A*out = out*A = I. Generators: identity top block, cauchy[i][j]=inv(i^j), rs[i][j]=(2^(i-k))^j for symbolic (i,j) and (m,k) up to (256,10)/(32,16). "
          "Recovery: for concrete (m,k) <= (9,3)/(8,4) (thorough (12,6)) and k symbolic strictly increasing survivors, the decode matrix built as the example does is invertible and inv*B = I (Cauchy; Vandermonde on documented-safe pairs).",
     note="Inversion over all of GF(2^8) is undecided (900 s, 5 back ends) and outside; subfield entries exercise every pivot/swap/singular pattern with real field arithmetic. Larger recovery instances use C12's lemmas to replace gf_mul/gf_inv by the specification."),
 }
